@@ -293,8 +293,10 @@ def main(root, prop, tier, seed, replay):
             else:
                 violations.append((None, {"kind": "failing-input", "property": prop, "cls": cls, "why": c["oracle"]["why"],
                                           "case": c["input"], "observed": c.get("obs"), "n_cases": len(idxs)}))
-        # correspondence mismatches that are not explained by an oracle failure
-        unexplained = [i for i in corr_fail if not cases[i].get("oracle")]
+        # correspondence mismatches that are not explained by an oracle failure (a KNOWN finding explains nothing:
+        # the model reproduces the recorded behaviour faithfully, so model and implementation must still agree there)
+        known_cls = {k.get("class") for k in known}
+        unexplained = [i for i in corr_fail if not cases[i].get("oracle") or cases[i]["oracle"].get("cls") in known_cls]
         if unexplained:
             c = cases[unexplained[0]]
             violations.append(("no-failing-input-found",
